@@ -62,8 +62,9 @@ theorem nsMsg_echo (id : Nat) (qn : List Nat) (topl : Name) (ptr : Nat) (dest : 
 
 /-- **NS / A responses.**  Whatever `handle_ns_request` / `handle_a_request` send for a query with a legal name of at most 250
 characters is well-formed and echoes id, name and type, with one answer record for that name. -/
-theorem nsaBytes_echo (cfg : Config) (q : Query) (bytes : List Nat) (hid : q.id < 65536) (hqn : LegalName q.name)
-    (hlen : q.name.length ≤ 250) (h : nsaBytes cfg q = some bytes) : NsaEchoes q.id q.type q.name bytes := by
+theorem nsaBytes_echo_of (cfg : Config) (q : Query) (bytes : List Nat) (hid : q.id < 65536) (hqn : LegalName q.name)
+    (htop : ∀ dlen, Common.queryDatalen q.name cfg.topdomain = some dlen → (q.name.drop dlen).length ≤ 250)
+    (h : nsaBytes cfg q = some bytes) : NsaEchoes q.id q.type q.name bytes := by
   unfold nsaBytes at h
   split at h
   · cases h
@@ -87,9 +88,11 @@ theorem nsaBytes_echo (cfg : Config) (q : Query) (bytes : List Nat) (hid : q.id 
           have hty : q.type = 2 := hty
           unfold nsResponse at h
           rw [hty] at h ⊢
+          have htop' := htop
+          clear htop
           obtain ⟨top, _, htop, hle, hcase⟩ := queryDatalen_split hd
           rw [htop] at h
-          have htl : top.length ≤ 250 := by rw [← htop]; simp; omega
+          have htl : top.length ≤ 250 := by rw [← htop]; exact htop' dlen hd
           rcases hcase with h0 | ⟨sub, hq, _⟩
           · subst h0
             simp only [List.drop_zero] at htop
@@ -105,5 +108,9 @@ theorem nsaBytes_echo (cfg : Config) (q : Query) (bytes : List Nat) (hid : q.id 
             rw [sent_ok h]
             exact nsMsg_echo _ _ _ _ _ _ h2
         · cases h
+
+theorem nsaBytes_echo (cfg : Config) (q : Query) (bytes : List Nat) (hid : q.id < 65536) (hqn : LegalName q.name)
+    (hlen : q.name.length ≤ 250) (h : nsaBytes cfg q = some bytes) : NsaEchoes q.id q.type q.name bytes :=
+  nsaBytes_echo_of cfg q bytes hid hqn (fun dlen _ => by simp only [List.length_drop]; omega) h
 
 end Iodine.BytesL
